@@ -25,7 +25,7 @@ MCArgs(name, h, dep) ==
                                 \cup {[obj |-> "a", nodes |-> <<x, y>>, tol |-> <<"default">>] : x \in InteriorSet(U), y \in InteriorSet(U) \cup {Q(5, 7)}}
     [] name = "CvDegreeIncrease" -> {[obj |-> "a", times |-> 1, form |-> f] : f \in {"method", "setter"}}
     [] name = "CvDegreeDecrease" -> {[obj |-> "a", times |-> 1, tol |-> <<"default">>, form |-> "method"]}
-    [] name = "CvClean" -> {[obj |-> "a", which |-> "all"]}
+    [] name = "CvClean" -> {[obj |-> "a", which |-> "all", tol |-> <<"default">>]}
     [] name = "CvSetCtrlpoints" -> {[obj |-> "a", points |-> Gen2(n)], [obj |-> "a", points |-> Gen2(n + 1)],
                                     [obj |-> "a", points |-> Gen2(n - 1)]}
     [] name = "CvSetWeights" -> {[obj |-> "a", weights |-> WGen1(n)], [obj |-> "a", weights |-> WGen1(n + 1)]}
